@@ -2,6 +2,7 @@ package rules
 
 import (
 	"fmt"
+	"strings"
 
 	"golang.org/x/tools/go/ssa"
 
@@ -50,6 +51,7 @@ func runC08(r *engine.Run) {
 	r.Rule("ORDER-publish", "in StateCache.commit the block's ancestor link is published (commitRound) only after the loop that writes the block's keys: no per-key write is reachable after the publication, and the publication is not inside the loop")
 	r.Rule("DOM-tombstone", "see C06: the data handed out is the data of the very entry whose deleted flag tested false - no rewrite of the entry (e.g. the substitution of the queried block's own entry found by the re-check) lies between the flag test and the read of the data")
 	r.Rule("LOCK-reentrant", "see C16: no Lock or RLock of a mutex is reachable while the same goroutine already holds that mutex of the same object: held-on-receiver facts (must-lockset inside a function) are carried into callees only along calls made on the same receiver value, over every call chain; sync mutexes are not reentrant (a second RLock deadlocks as soon as a writer queues up between the two)")
+	r.Rule("ORDER-txsection", "TransactionCache.Commit hands the pending writes over and empties the pending map in one critical section: no release of the transaction cache's mutex lies on a path from a hand-over call to the emptying, and the emptying happens under the write lock (a writer admitted in a gap would write into the map that is about to be discarded)")
 	r.Rule("PAIR-unlock", "every Lock/RLock of a mutex is followed on every path to a return of the acquiring function by the matching Unlock/RUnlock on the same mutex or by a deferred one registered on the path: no operation returns with the lock held (every later operation on the object would block)")
 	r.NotDec = append(r.NotDec, "that every interleaving of the lock-free StateCache.Get with a commit yields the block-tree-determined value (needs exploration of interleavings)")
 	const rule = "LOCK-statecache"
@@ -92,6 +94,7 @@ func runC08(r *engine.Run) {
 	domRecheck(r, "DOM-recheck")
 	domTombstone(r)
 	pairUnlock(r, "PAIR-unlock", funcsOfPkg(r, pkgSC), 4)
+	orderTxSection(r, "ORDER-txsection")
 	lockReentrant(r, "LOCK-reentrant", funcsOfPkg(r, pkgSC), 8)
 }
 
@@ -197,4 +200,72 @@ func domRecheck(r *engine.Run, rule string) {
 	if len(memos) == 0 {
 		r.Note(rule, fn(f)+"|no memo", r.P.Pos(f.Pos()), "the walk does not memoise")
 	}
+}
+
+// orderTxSection: TransactionCache.Commit hands the pending writes to the block
+// cache and empties the pending map in ONE critical section. If the lock is
+// released between the hand-over and the emptying (flush under the read lock,
+// then a separate write lock for the reset), a Set or Remove that was waiting
+// gets the lock in the gap: its entry goes into the old map after the flush and
+// is wiped by the reset - the call returned but the write is neither in the
+// block nor pending. Every access is still locked, so no race is reported.
+//
+// Rule: in Commit no release of the transaction cache's mutex lies on a path
+// from a hand-over call to the emptying of the pending map, and the emptying
+// happens with the mutex held for writing.
+func orderTxSection(r *engine.Run, rule string) {
+	f := r.Fn(rule, pkgSC, "TransactionCache", "Commit")
+	if f == nil {
+		return
+	}
+	var handovers, resets, releases []ssa.Instruction
+	engine.Instrs(f, func(in ssa.Instruction) {
+		switch x := in.(type) {
+		case *ssa.Store:
+			if fa, ok := x.Addr.(*ssa.FieldAddr); ok && len(f.Params) > 0 && fa.X == ssa.Value(f.Params[0]) && fieldName(fa) == "TransactionCache.cache" {
+				resets = append(resets, x)
+			}
+		case *ssa.Call:
+			if x.Call.IsInvoke() && x.Call.Method.Name() == "setValue" {
+				handovers = append(handovers, x)
+			}
+			if b, ok := x.Call.Value.(*ssa.Builtin); ok && (b.Name() == "clear" || b.Name() == "delete") && len(x.Call.Args) > 0 {
+				if ld, ok := x.Call.Args[0].(*ssa.UnOp); ok {
+					if fa, ok := ld.X.(*ssa.FieldAddr); ok && fieldName(fa) == "TransactionCache.cache" {
+						resets = append(resets, x)
+					}
+				}
+			}
+			if _, op, ok := engine.LockOp(x); ok && (op == "Unlock" || op == "RUnlock") {
+				releases = append(releases, x)
+			}
+		}
+	})
+	if len(handovers) == 0 || len(resets) == 0 {
+		r.Anchor(rule, fmt.Errorf("unresolved anchor: hand-over (%d) / emptying (%d) in %s", len(handovers), len(resets), fn(f)))
+		return
+	}
+	gap := ""
+	for _, u := range releases {
+		for _, h := range handovers {
+			for _, rs := range resets {
+				if engine.ReachableAfter(h, u) && engine.ReachableAfter(u, rs) {
+					gap = r.P.Pos(u.Pos())
+				}
+			}
+		}
+	}
+	fl := engine.LocksIn(f)
+	heldW := true
+	for _, rs := range resets {
+		w := false
+		for k, mode := range fl.At[rs] {
+			if strings.HasPrefix(k, "TransactionCache.") && mode >= engine.ModeW {
+				w = true
+			}
+		}
+		heldW = heldW && w
+	}
+	r.Check(gap == "" && heldW, rule, fn(f)+"|one critical section", r.P.Pos(f.Pos()), "the mutex is held for writing at the emptying and is not released between the hand-over and the emptying",
+		fmt.Sprintf("the transaction cache's mutex is released between the hand-over to the block cache and the emptying of the pending map (release at %s; write lock at the emptying: %v): a Set or Remove that acquires the lock in the gap writes into the map that is about to be discarded - the call returns, but the write is neither in the block nor pending", gap, heldW))
 }
